@@ -130,57 +130,7 @@ func rulesC18(e *Engine, r *Report) {
 
 	// ---------------------------------------------------------------- R18.5
 	r.Rule("R18.5", "every day the window touches is visited: in each() the day file of the current position is offered to the handler in every iteration BEFORE the window-end test, so the closing day (reached by the step that overshoots the end instant) is still visited; the position advances by exactly one day in the window's direction; an empty or degenerate window visits nothing")
-	if fn := needFn(e, r, "R18.5", "log.(*rollingFile).each"); fn != nil {
-		visit := e.findInstrs(fn, "dyn(p1)(call(log.(*rollingFile).getPath)(p0, §))", false)
-		r.Check(len(visit) == 1, "R18.5", "log.(*rollingFile).each: the handler gets getPath(position)", e.Pos(fn.Pos()), "the day file offered is not the one of the current position", 1)
-		if len(visit) == 1 {
-			hdr, backs := innermostLoop(visit[0])
-			r.Check(hdr != nil, "R18.5", "log.(*rollingFile).each: the visit is inside the day loop", e.InstrPos(visit[0]), "no loop over the days", 1)
-			if hdr != nil {
-				// window-end exits: edges leaving the loop on After/Before(stop)
-				cls := labeler(I("dyn(p1)(call(log.(*rollingFile).getPath)(p0, §))", "visited"))
-				nExit := 0
-				for _, p := range []string{"call(time.(Time).After)(phi(§), §)", "call(time.(Time).Before)(phi(§), §)"} {
-					for _, ed := range e.ifEdges(fn, p) {
-						if !hdr.Dominates(ed.B) {
-							continue
-						}
-						nExit++
-						conds := []string{}
-						// the visit dominates the exit test within the iteration
-						okDom := visit[0].Block().Dominates(ed.B) && (visit[0].Block() != ed.B || true)
-						_ = conds
-						r.Check(okDom, "R18.5", fmt.Sprintf("log.(*rollingFile).each: window-end test b%d comes after the visit of that day", ed.B.Index), e.Pos(fn.Pos()),
-							"the loop can leave on the window's end before the day file of the current position was offered: the closing day of a window is skipped", 1)
-					}
-				}
-				_ = cls
-				r.Min("R18.5", "window-end exits of the day loop", nExit, 2)
-				// advance by one day in the direction
-				adv := e.findInstrs(fn, "call(time.(Time).Add)(phi(§), phi(§))", false)
-				okAdv := len(adv) == 1
-				if okAdv {
-					step := e.Canon(adv[0].(ssa.CallInstruction).Common().Args[1])
-					okAdv = strings.Contains(step, "86400000000000") && strings.Contains(step, "* -1")
-				}
-				r.Check(okAdv, "R18.5", "log.(*rollingFile).each: position advances by ±24h", e.Pos(fn.Pos()), "the step of the day loop is not one day in the window's direction", 1)
-				_ = backs
-			}
-		}
-		for _, rw := range e.returnWorlds(r, "R18.5", fn, labeler(C("dyn(p1)(§)", "hit"))) {
-			if rw.W.Has("ret0=true") {
-				r.Check(rw.W.Has("hit"), "R18.5", "log.(*rollingFile).each: yes only when the handler said yes", e.InstrPos(rw.In), "each() reports a hit without the handler", 1)
-			}
-		}
-	}
-	if fn := needFn(e, r, "R18.5", "log.(*rollingFile).getPath"); fn != nil {
-		got := e.findInstrs(fn, `call(filepath.Join)([p0.root, call(fmt.Sprintf)("%04d%02d", [call(time.(Time).Year)(p1), call(time.(Time).Month)(p1)]), call(fmt.Sprintf)("%02d", [call(time.(Time).Day)(p1)])])`, false)
-		r.Check(len(got) == 1, "R18.5", "log.(*rollingFile).getPath: <root>/YYYYMM/DD of the given instant", e.Pos(fn.Pos()), "the day-file path is not derived from year, month and day of the instant", 1)
-		cur := e.Fn("log.(*rollingFile).getCurrPath")
-		if cur != nil {
-			r.Check(len(e.findInstrs(cur, "call(log.(*rollingFile).getPath)(p0, call(time.Now)())", false)) == 1, "R18.5", "log.(*rollingFile).getCurrPath: writer and reader share getPath", e.Pos(cur.Pos()), "records are written to a path computed differently from the one the look-up visits", 1)
-		}
-	}
+	e.checkDayLoop(r, "R18.5")
 
 	// ---------------------------------------------------------------- R18.3
 	r.Rule("R18.3", "record layout vs. parser: the receive record is name:renamed:hash:size:time: and the sent record name:hash:size:time: ms, built from the like-named getters; Parse splits on the same separator and hands the handler (field 0, field 1 when more than four fields else \"\", the next field, the next as integer, the next as unix time); the look-up's hash index follows the same rule; and a %s field must not be able to contain the separator unescaped")
@@ -304,4 +254,63 @@ func rulesC18(e *Engine, r *Report) {
 		})
 		r.Min("R18.4", "acknowledgements in the writer goroutine", n, 1)
 	}
+}
+
+// checkDayLoop: the day-file iterator behind Parse / WasReceived / WasSent
+// visits every day a window touches, the closing day included (shared by
+// R18.5 and R05.10: the receiver's duplicate suppression refills its cache
+// through this loop).
+func (e *Engine) checkDayLoop(r *Report, rule string) {
+	if fn := needFn(e, r, rule, "log.(*rollingFile).each"); fn != nil {
+		visit := e.findInstrs(fn, "dyn(p1)(call(log.(*rollingFile).getPath)(p0, §))", false)
+		r.Check(len(visit) == 1, rule, "log.(*rollingFile).each: the handler gets getPath(position)", e.Pos(fn.Pos()), "the day file offered is not the one of the current position", 1)
+		if len(visit) == 1 {
+			hdr, backs := innermostLoop(visit[0])
+			r.Check(hdr != nil, rule, "log.(*rollingFile).each: the visit is inside the day loop", e.InstrPos(visit[0]), "no loop over the days", 1)
+			if hdr != nil {
+				// window-end exits: edges leaving the loop on After/Before(stop)
+				cls := labeler(I("dyn(p1)(call(log.(*rollingFile).getPath)(p0, §))", "visited"))
+				nExit := 0
+				for _, p := range []string{"call(time.(Time).After)(phi(§), §)", "call(time.(Time).Before)(phi(§), §)"} {
+					for _, ed := range e.ifEdges(fn, p) {
+						if !hdr.Dominates(ed.B) {
+							continue
+						}
+						nExit++
+						conds := []string{}
+						// the visit dominates the exit test within the iteration
+						okDom := visit[0].Block().Dominates(ed.B) && (visit[0].Block() != ed.B || true)
+						_ = conds
+						r.Check(okDom, rule, fmt.Sprintf("log.(*rollingFile).each: window-end test b%d comes after the visit of that day", ed.B.Index), e.Pos(fn.Pos()),
+							"the loop can leave on the window's end before the day file of the current position was offered: the closing day of a window is skipped", 1)
+					}
+				}
+				_ = cls
+				r.Min(rule, "window-end exits of the day loop", nExit, 2)
+				// advance by one day in the direction
+				adv := e.findInstrs(fn, "call(time.(Time).Add)(phi(§), phi(§))", false)
+				okAdv := len(adv) == 1
+				if okAdv {
+					step := e.Canon(adv[0].(ssa.CallInstruction).Common().Args[1])
+					okAdv = strings.Contains(step, "86400000000000") && strings.Contains(step, "* -1")
+				}
+				r.Check(okAdv, rule, "log.(*rollingFile).each: position advances by ±24h", e.Pos(fn.Pos()), "the step of the day loop is not one day in the window's direction", 1)
+				_ = backs
+			}
+		}
+		for _, rw := range e.returnWorlds(r, rule, fn, labeler(C("dyn(p1)(§)", "hit"))) {
+			if rw.W.Has("ret0=true") {
+				r.Check(rw.W.Has("hit"), rule, "log.(*rollingFile).each: yes only when the handler said yes", e.InstrPos(rw.In), "each() reports a hit without the handler", 1)
+			}
+		}
+	}
+	if fn := needFn(e, r, rule, "log.(*rollingFile).getPath"); fn != nil {
+		got := e.findInstrs(fn, `call(filepath.Join)([p0.root, call(fmt.Sprintf)("%04d%02d", [call(time.(Time).Year)(p1), call(time.(Time).Month)(p1)]), call(fmt.Sprintf)("%02d", [call(time.(Time).Day)(p1)])])`, false)
+		r.Check(len(got) == 1, rule, "log.(*rollingFile).getPath: <root>/YYYYMM/DD of the given instant", e.Pos(fn.Pos()), "the day-file path is not derived from year, month and day of the instant", 1)
+		cur := e.Fn("log.(*rollingFile).getCurrPath")
+		if cur != nil {
+			r.Check(len(e.findInstrs(cur, "call(log.(*rollingFile).getPath)(p0, call(time.Now)())", false)) == 1, rule, "log.(*rollingFile).getCurrPath: writer and reader share getPath", e.Pos(cur.Pos()), "records are written to a path computed differently from the one the look-up visits", 1)
+		}
+	}
+
 }
